@@ -142,7 +142,7 @@ Proof.
   intros Hl Hx Hy. split; [exact (r_one_collinear xs ys Hl Hx Hy) |].
   intros (al & be & Ha & ->).
   pose proof (correlation_collinear xs al be Hx Ha) as E1.
-  rewrite (correlation_value xs (map (aff al be) xs) Hx Hy) in E1.
+  rewrite (correlation_value xs (map (aff al be) xs) Hl Hx Hy) in E1.
   injection E1 as ->.
   destruct (Rdichotomy _ _ Ha) as [Hn | Hp].
   - rewrite sgn_neg by exact Hn. rewrite Rabs_left; lra.
